@@ -167,8 +167,29 @@ def parse_output(text):
 SKIP = ("Lx", "Lk", "A+", "A-", "T", "END", "P", "OpX", "CL", "F>", "Lc!", "O!", "Sn", "Sc")
 
 
+_TAG = re.compile(r" tag=\d+")
+
+
 def comparable(lines):
-    return [l for l in lines if l.split(" ", 1)[0] not in SKIP and not l.startswith("V ")]
+    """drop unjudged event kinds; inside a stop-request window (S .. S.) context tags are not compared: an
+    algorithm may deliver a completion after its stop callback returned (under the requester's context) or from
+    inside the leaf that reacted to the stop (under that leaf's context) - both are legitimate"""
+    out = []
+    in_stop = 0
+    for l in lines:
+        k = l.split(" ", 1)[0]
+        if k in SKIP or l.startswith("V "):
+            continue
+        if k == "S" and l != "S skipped":
+            in_stop += 1
+            out.append(l)
+            continue
+        if k == "S.":
+            in_stop = max(0, in_stop - 1)
+            out.append(l)
+            continue
+        out.append(_TAG.sub(" tag=*", l) if in_stop else l)
+    return out
 
 
 def segments(lines):
@@ -423,7 +444,7 @@ class ExprRun:
         except M.ModelError as e:
             self.stats["inconclusive"] += 1
             return
-        exp = sim.out
+        exp = comparable(sim.out)
         obs = comparable(lines)
         d = None
         if exp != obs:
